@@ -7,6 +7,7 @@ import "golang.org/x/exp/rand"
 func init() {
 	vHarnesses["VH_C15_common"] = VH_C15_common
 	vHarnesses["VH_C15_coc_fate"] = VH_C15_coc_fate
+	vHarnesses["VH_C15_vm"] = VH_C15_vm
 }
 
 //vh:prop=C15 tiers=quick,thorough solver=z3-new/int summaries=Roll:roll-contract unwind=12 quick:P.maxTimes=3 thorough:P.maxTimes=4 bounds="RollCommon under modes -1/0/+1 with identical parameters: times in 1..maxTimes, 1<=sides<=2^40, counts/min/max within +-2^40, min<=max when both given; random dice are Roll's contract values"
@@ -115,4 +116,72 @@ func VH_C15_coc_fate() {
 	vObserve("hi", hi)
 	vAssert(lo <= mid, "coc-min-mode-is-a-lower-bound")
 	vAssert(mid <= hi, "coc-max-mode-is-an-upper-bound")
+}
+
+// expressions monotone in their dice, through the VM, incl. dice rolled
+// inside functions, computed values, loops and the default-sides expression
+var vC15Progs = []struct {
+	src      string
+	defSides string
+	lo, hi   int64 // bounds, attained for XdY terms
+}{
+	{"2d6 + 3", "", 5, 15},
+	{"3d6kh2 * 2", "", 4, 24},
+	{"4d6k3min2 + d4 * 3", "", 9, 30},
+	{"func fn1() { 2d6 }; fn1() + 1", "", 3, 13},
+	{"&v1 = 2d6 + 1; v1 + v1", "", 6, 26},
+	{"func fn1() { 2d6 }; &v1 = fn1() + d4; v1", "", 3, 16},
+	{"func fn1(n) { n + d8 }; fn1(d4)", "", 2, 12},
+	{"func fn1() { 2d6 }; func fn2() { fn1() + fn1() }; fn2()", "", 4, 24},
+	{"f + 5", "", 1, 9},
+	{"i = 0; v1 = 0; while i < 2 { i = i + 1; v1 = v1 + d6 }; v1", "", 2, 12},
+	{"1 ? 2d6 : 3", "", 2, 12},
+	{"(d3)d(d4)", "", 1, 12},
+	{"d + d", "d4 + 2", 2, 12},
+	{"func fn1() { d }; fn1() + d", "2d3", 2, 12},
+	{"&v1 = d6; func fn1() { v1 + v1 }; fn1()", "", 2, 12},
+}
+
+//vh:prop=C15 tiers=quick,thorough sigkeys=prog solver=z3-new/int summaries=Roll:roll-contract unwind=24 unwind_ok=1 budget_s=1200 bounds="15 programs whose value is monotone in its dice (sums and products with non-negative constants of XdY with keep/min modifiers, Fate, nested dice counts), with the dice at top level, inside functions (also nested and called from computed values), computed values, a loop, a conditional and the default-sides expression: the min-mode and max-mode runs consume no generator output, leave the generator state unchanged and give the expected attained bounds; the random-mode value (dice = Roll-contract symbols) lies between them"
+func VH_C15_vm() {
+	k := vChoice("prog", len(vC15Progs))
+	pr := vC15Progs[k]
+	run := func(mode int) (*Context, error) {
+		vm := vSeededVM()
+		vm.Config.DefaultDiceSideExpr = pr.defSides
+		vm.Config.DiceMinMode = mode < 0
+		vm.Config.DiceMaxMode = mode > 0
+		err := vm.Run(pr.src)
+		return vm, err
+	}
+	lovm, err := run(-1)
+	vAssert(err == nil, "min-mode-run-succeeds")
+	n1 := vDrawCount()
+	hivm, err2 := run(1)
+	vAssert(err2 == nil, "max-mode-run-succeeds")
+	vReach("ran")
+	vAssert(n1 == 0 && vDrawCount() == 0, "min/max-mode-consume-no-randomness")
+	if err != nil || err2 != nil {
+		return
+	}
+	fresh := vSeededVM()
+	s0, _ := fresh.GetCurSeed()
+	s1, _ := lovm.GetCurSeed()
+	s2, _ := hivm.GetCurSeed()
+	vAssert(string(s1) == string(s0) && string(s2) == string(s0), "min/max-mode-leave-generator-state-unchanged")
+	lo, ok1 := lovm.Ret.ReadInt()
+	hi, ok2 := hivm.Ret.ReadInt()
+	vAssert(ok1 && ok2, "integer-results")
+	vObserve("lo", lo)
+	vObserve("hi", hi)
+	vAssert(int64(lo) == pr.lo, "min-mode-gives-the-lowest-outcome")
+	vAssert(int64(hi) == pr.hi, "max-mode-gives-the-highest-outcome")
+	midvm, err3 := run(0)
+	vAssert(err3 == nil, "random-mode-run-succeeds")
+	if err3 != nil {
+		return
+	}
+	mid, ok3 := midvm.Ret.ReadInt()
+	vAssert(ok3, "integer-results")
+	vAssert(vAnd(lo <= mid, mid <= hi), "random-result-is-bracketed")
 }
